@@ -924,16 +924,45 @@ def rule_sel_empty_enum(ctx):
         if fixed:
             dd.add(ok('SEL-EMPTY-ENUM', inst, 'has fixed variants', loc))
             continue
-        # which collection feeds the repetition?
-        reps = [el for el in body if el['t'] == 'rep']
+        # which collection feeds the repetition?  the production (template site) must be control-dependent on a
+        # non-emptiness test of that very collection (read on the HIR: guards may be abstracted in terms)
         guard_ok = False
-        for c in it.conds:
-            if c[0] == 'if' and c[1] is not None:
-                for s in P.subterms(c[1]):
-                    if s[0] == 'op' and s[1] in ('is_empty', 'len'):
-                        # the tested collection must be the variants, not the fields
-                        if 'ExpandedVariant' in repr(s) or 'variants' in repr(s):
-                            guard_ok = True
+        sfn, snode = ctx.pv.sites[it.site]
+        holes = ctx.ex.holes_of(it.site)
+        rep_names = set()
+
+        def rep_holes(seq):
+            for el in seq:
+                if el['t'] == 'rep':
+                    for x in el['seq']:
+                        if x['t'] == 'hole':
+                            rep_names.add(x['name'])
+                if el['t'] in ('group', 'rep'):
+                    rep_holes(el['seq'])
+        rep_holes(ctx.ex.site_tree(it.site))
+        rep_hids = {holes[n]['hid'] for n in rep_names if n in holes}
+        from .facts import root_local
+        for pc in P.path_conds(sfn, snode):
+            if pc[0] != 'if':
+                continue
+            stack = [(pc[1], pc[2])]
+            while stack:
+                e, pol = stack.pop()
+                k = e.get('k')
+                if k == 'binary' and e.get('op') == '&&' and pol:
+                    stack += [(e['l'], True), (e['r'], True)]
+                elif k == 'binary' and e.get('op') == '||' and not pol:
+                    stack += [(e['l'], False), (e['r'], False)]
+                elif k == 'unary' and e.get('op') == '!':
+                    stack.append((e['e'], not pol))
+                elif k in ('wrap',):
+                    stack.append((e['e'], pol))
+                elif k == 'mcall' and e['method'] == 'is_empty' and root_local(e['recv']) in rep_hids and not pol:
+                    guard_ok = True
+                elif k == 'binary' and e.get('op') in ('>', '!=', '>=') and pol:
+                    l = e['l']
+                    if l.get('k') == 'mcall' and l['method'] == 'len' and root_local(l['recv']) in rep_hids:
+                        guard_ok = True
         if guard_ok:
             dd.add(ok('SEL-EMPTY-ENUM', inst, 'enum production guarded by a non-empty variants test', loc))
         else:
